@@ -27,7 +27,7 @@ for d in seeded/${SEEDS:-C*}/; do
   by="$prop"
   if [ $rc != 1 ]; then
     # not reported by the check of the property it was written for: try the checks of neighbouring properties
-    for alt in C01 C09 C13 C10 C07 C12 C14 C05 C17; do
+    for alt in C01 C09 C13 C10 C07 C12 C14 C05 C19 C15 C11 C08 C06 C16 C02 C03 C04 C18 C17; do
       [ $alt = $prop ] && continue
       res2=$(timeout 2400 ./check $alt quick 2>&1); rc2=$?
       if [ $rc2 = 1 ]; then res="$res2"; rc=1; by="$alt"; break; fi
@@ -35,7 +35,7 @@ for d in seeded/${SEEDS:-C*}/; do
   fi
   git -C /repo checkout -q HEAD -- .
   line=$(echo "$res" | grep -m1 -A1 '^VIOLATION' | tr '\n' ' ' | cut -c1-260)
-  if [ $rc = 1 ]; then verdict="DETECTED by $by quick"; else verdict="NOT detected by $prop quick nor by C01 C09 C13 C10 C07 C12 C14 C05 C17 (exit $rc)"; fi
+  if [ $rc = 1 ]; then verdict="DETECTED by $by quick"; else verdict="NOT detected by $prop quick nor by the quick check of any other property (exit $rc)"; fi
   grep -v "^$s: " $out.tmp > $out.tmp2; mv $out.tmp2 $out.tmp
   echo "$s: $base$verdict :: $line" >> $out.tmp
   python3 - "$d" "$prop" "$rc" "$by" <<'PY'
